@@ -148,6 +148,8 @@ class VList(V):
         c = VList(self.elem, items=None if self.items is None else [], seq=self.seq)
         if getattr(self, "assoc", False):
             c.assoc = True
+        if getattr(self, "is_set", False):
+            c.is_set = True
         if hasattr(self, "origin"):
             c.origin = self.origin
         memo[id(self)] = c
@@ -565,9 +567,10 @@ class Rec(Ty):
         # sort AND agree on which argument is which field
         key = _tykey(self)
         if key not in _sort_cache:
+            fsorts = [(k, self.fields[k].sort()) for k in sorted(self.fields)]  # nested records first (own names)
             m = f"{_mangle(self.name)}_{len(_sort_cache)}"
             d = z3.Datatype(f"Rec_{m}")
-            d.declare(f"mkrec_{m}", *[(f"{k}_{m}", self.fields[k].sort()) for k in sorted(self.fields)])
+            d.declare(f"mkrec_{m}", *[(f"{k}_{m}", fs) for k, fs in fsorts])
             _sort_cache[key] = d.create()
         return _sort_cache[key]
 
